@@ -36,7 +36,7 @@ SPEC = dict(
          'the step: out=outmax, out=outmin, sum>=summax, sum<=summin) combinations in which at least one step was judged - NOT the number of '
          'steps (evaluations).',
     exhaustive={'quick': None, 'thorough': None},
-    require=['fuzzy-e-table-shorter-than-the-rule-base', 'fuzzy-ec-table-shorter-than-the-rule-base', 'fuzzy-both-tables-packed-in-one-array', 'a_pid::pos', 'a_pid::inc', 'a_pid::run', 'a_pid_neuro::inc', 'a_pid_fuzzy::pos', 'a_pid_fuzzy::set_kpid', 'w-out-within-limits', 'w-state-finite', 'w-return-eq-out-field', 'w-limits-untouched', 'w-gains-untouched', 'w-cached-fields-bitwise', 'w-integrator-clamp-clauses',
+    require=['pid-decimal-grid-limit-clause', 'fuzzy-e-table-shorter-than-the-rule-base', 'fuzzy-ec-table-shorter-than-the-rule-base', 'fuzzy-both-tables-packed-in-one-array', 'a_pid::pos', 'a_pid::inc', 'a_pid::run', 'a_pid_neuro::inc', 'a_pid_fuzzy::pos', 'a_pid_fuzzy::set_kpid', 'w-out-within-limits', 'w-state-finite', 'w-return-eq-out-field', 'w-limits-untouched', 'w-gains-untouched', 'w-cached-fields-bitwise', 'w-integrator-clamp-clauses',
              'w-equation-exact', 'w-equation-onestep', 'w-pos-eq-inc-while-no-limit-active', 'w-closed-form-while-no-limit-active', 'w-seen-first-limit-activation-in-pos-inc-pair',
              'w-init-on-garbage', 'w-zero-state-fields', 'w-zero-mid-history', 'w-fuzzy-scratch-layout', 'w-fuzzy-configuration-untouched', 'w-fuzzy-table-lookup-gains-exact',
              'w-fuzzy-gains-weighted-mean', 'w-fuzzy-threshold-lone-set', 'w-seen-fuzzy-no-set-fires', 'w-neuro-configuration-untouched-ec-bitwise', 'w-neuro-run-passes-setpoint-keeps-weights',
